@@ -356,7 +356,7 @@ def C03(tier, seed):
     ranks.mc = [("MC_BigNum", "MC_BigNum.cfg", {}, 1)]
     perm = st("perm", ["C03.data_outcome", "C03.data_elements"] + ["C03.entry." + x for x in ("ci", "sorted", "max_n", "max_1024")]
               + ["C03.type." + x for x in ("i32", "f64", "char", "str")], {"P_N": 6 if q else 7})
-    shuf = st("shuffle", ["C03.data_outcome", "C03.data_elements", "C03.distinct_values_shuffled"], {"Q_SHUFFLES": 60 if q else 600}, shards=4)
+    shuf = st("shuffle", ["C03.data_outcome", "C03.data_elements", "C03.distinct_values_shuffled", "C03.capacity_above_default"], {"Q_SHUFFLES": 60 if q else 600}, shards=4)
     own = own_stage("Q", "Trace_Quantile", ["C03.ranks", "C03.domain"])
     own.shards = 1
     return {
@@ -459,12 +459,14 @@ def c06_designed():
 
 
 def C06(tier, seed):
-    st = mean_stage("c06", "C06", arith_req("C06"), 0)
+    st = mean_stage("c06", "C06", arith_req("C06") + ["C04.unpaired_small_dof_large_population"], 0)
+    st.adopt = {"C04.unpaired_bound", "C04.shape", "C04.domain", "C04.exchange_mirrors"}    # the critical value of the unpaired comparison at a small effective dof
     # even-dof rows of the t table certified from the algebraic closed form of the distribution function
     st.mc = list(TABLES_MC) + [("MC_TCert", "MC_TCert.cfg", {"TCERT_MAX": 80 if tier == "quick" else 300}, 4)]
+    zrow = prop_stage("row", 30 if tier == "quick" else 60, ["C02.root_lo", "C02.root_hi", "C02.negative_z", "C02.zero_z"], levels="all")
+    zrow.adopt = {"C02.root_lo", "C02.root_hi"}       # the z implied by a Wilson / Wald bound
     return {
-        "stages": [st, c06_designed(), prop_stage("row", 30 if tier == "quick" else 60, ["C02.root_lo", "C02.root_hi", "C02.negative_z", "C02.zero_z"],
-                                  levels="all")],
+        "stages": [st, c06_designed(), zrow],
         "exhaustive": True,
         "rule": "symmetric probe samples (+-1, exact standard error 1/sqrt(n-1)) for 150 (all 430) degrees-of-freedom rows of the reference table "
                 "(every integer 1..120 (300), log-spaced up to 99 999) and n beyond the switch x all 19 levels x 3 kinds: the implied critical value "
@@ -486,8 +488,16 @@ def C04(tier, seed):
     st.mc = list(TABLES_MC)
     designed = mean_stage("designed", "C04", ["C04.designed_dof", "C04.real_dof_critical_value", "C04.exchange_mirrors"], 0, shards=1)
     designed.harness_env = {"HARNESS_THREADS": 1}      # consecutive calls on one thread, in generator order
+    # feeding histories of the two comparison states (every program of 2 (3) calls, incl. unequal bulk lengths after earlier
+    # pairs): the state is the multiset of pairs delivered, errors carry the lengths of the offending call
+    hist = []
+    for fl in ("paired", "unpaired"):
+        a = acc_stage(fl, 2 if tier == "quick" else 3, shards=8, name=f"history_{fl}",
+                      req=["C09.rejected.DifferentSampleSizes"] if fl == "paired" else [])
+        a.adopt = set(ACC_REQ)
+        hist.append(a)
     return {
-        "stages": [st, designed],
+        "stages": [st, designed] + hist,
         "exhaustive": False,
         "rule": "12 designed sample pairs with non-integer effective dof (1.9 .. 20.2; neighbours share the integer part) x 19 levels x 3 kinds, each "
                 "also exchanged, executed back to back on one thread and judged against the t quantile at that REAL dof (table rows generated for "
@@ -509,6 +519,9 @@ def C05(tier, seed):
         a = acc_stage(fl, 2 if tier == "quick" else 3, req=["C05.rejected_with_value", "C05.rejection_keeps_state", "C05.rejected." + fl],
                       shards=8, name=f"reject_{fl}")
         a.required -= set(ACC_REQ)
+        # whatever the feeding history, the state is the multiset delivered: the interval is the transform of the
+        # arithmetic interval of ALL logarithms / reciprocals
+        a.adopt = set(ACC_REQ)
         rej.append(a)
     return {
         "stages": [st] + rej,
@@ -537,8 +550,10 @@ def C10(tier, seed):
     st.mc = [("MC_Tables", "MC_Tables.cfg", {}, 1)]
     seq = rel_stage("c10seq", ["C10.kind", "C10.nesting", "C10.one_sided_equals_two_sided", "C10.contains_estimate"], 2 if tier == "quick" else 12, shards=1)
     seq.harness_env = {"HARNESS_THREADS": 1}
+    extra = rel_stage("c10extra", ["C10.kind", "C10.nesting", "C10.one_sided_equals_two_sided", "C10.constant_sample.upper", "C10.constant_sample.lower"]
+                      + ["C10.producer.quantile_data_" + e for e in ("ci", "sorted", "max_n", "max_1024")], 0, shards=8)
     return {
-        "stages": [st, seq],
+        "stages": [st, seq, extra],
         "exhaustive": False,
         "rule": "the same groups in the other loop order (level outside, kind inside) executed back to back on one thread, so that consecutive calls "
                 "share level and degrees of freedom and differ in the kind only; "
@@ -578,7 +593,7 @@ def C08(tier, seed):
     streams = Stage("streams", ("Gen_Kahan", "Gen_Kahan.cfg"), ("Trace_Kahan", "Trace_Kahan.cfg"),
                     env={"PART": "streams"},
                     required=["C08.error_bound", "C08.long_stream.f32", "C08.long_stream.f64", "C08.merge_tree",
-                              "C08.statistics_inherit", "C08.statistics.f32", "C08.statistics.f64", "C08.act.add_block", "C08.act.add_cycle",
+                              "C08.statistics_inherit", "C08.statistics.f32", "C08.statistics.f64", "C08.statistics_fed_by.rfold1_assign", "C08.statistics_fed_by.tree", "C08.fold_of_absorbed_registers.f32", "C08.fold_of_absorbed_registers.f64", "C08.act.add_block", "C08.act.add_cycle",
                               "C08.long_lfold.f32", "C08.long_rfold.f32", "C08.long_lfold.f64", "C08.long_rfold.f64",
                               "C08.long_lfold_plus.f32", "C08.long_rfold_plus.f32", "C08.long_lfold_plus.f64", "C08.long_rfold_plus.f64",
                               "C08.negative_sum_stream", "C08.tiny_magnitude_stream.f32", "C08.tiny_magnitude_stream.f64"])
